@@ -422,6 +422,37 @@ def keysDistinctB (g : Graph) : Bool :=
           i == j || !eqSpec g (es.getD i (0, 0)).1 (es.getD j (0, 0)).1
     | _ => true
 
+/-- the members of every hash set node are pairwise different values (as in every real hash set; what the
+    constructors establish: `mkSet_guards`). -/
+def membersDistinctB (g : Graph) : Bool :=
+  g.all fun n =>
+    match n with
+    | .set xs =>
+        (List.range xs.length).all fun i => (List.range xs.length).all fun j =>
+          i == j || !eqSpec g (xs.getD i 0) (xs.getD j 0)
+    | _ => true
+
+/-! ## The constructors of hash sets and hash maps (`hs_construct`, `hm_construct`, `hashset-insert`, `hash-insert`)
+
+`HashSet::insert` / `HashMap::insert` of `im`/`imbl`: the entry whose stored key answers the query (same hash
+and `==`) is REPLACED by the new entry (key object included), otherwise the entry is added.  The order of the
+entries is the iteration order of the real object and is irrelevant to every relation of this file except the
+legacy order-dependent hash. -/
+
+def setInsertIds (keyEq : Nat → Nat → Bool) (xs : List Nat) (k : Nat) : List Nat :=
+  xs.filter (fun x => !keyEq k x) ++ [k]
+
+def mapInsertIds (keyEq : Nat → Nat → Bool) (es : List (Nat × Nat)) (k v : Nat) : List (Nat × Nat) :=
+  es.filter (fun e => !keyEq k e.1) ++ [(k, v)]
+
+/-- `(hashset k1 k2 …)` over the values of `g`: `for key in args { hs.insert(key.clone()) }` -/
+def mkSet (c : Cfg) (g : Graph) (ks : List Nat) : Node :=
+  .set (ks.foldl (setInsertIds (keyEqImpl c g)) [])
+
+/-- `(hash k1 v1 k2 v2 …)` over the values of `g`: `hm.insert(key, value)` pair by pair -/
+def mkMap (c : Cfg) (g : Graph) (kvs : List (Nat × Nat)) : Node :=
+  .map (kvs.foldl (fun es e => mapInsertIds (keyEqImpl c g) es e.1 e.2) [])
+
 /-- What is assumed about the identities of lists (it holds for im-lists): two lists whose first nodes
     have the same element storage, the same index AND the same next node have the same elements.  (The
     other assumption is built into the representation: a node id = a head cell has ONE definition.) -/
